@@ -40,6 +40,12 @@ Prev(evs, k, op, obs) ==
 Explains(evs, k, m) ==
     LET e == evs[k]  c == e.c  r == e.r IN
     CASE c.op = "new" -> r.st = "ok"
+      \* secondary observables of the model object
+      [] c.op = "meta" ->
+           /\ r.st = "ok" /\ r.ns = m.s
+           /\ r.states = [i \in 1..m.s |-> i - 1]
+           /\ r.trans = [i \in 1..(m.s * m.s) |-> <<(i - 1) \div m.s, (i - 1) % m.s>>]
+      [] c.op = "clone" -> r.st = "ok" /\ r.eq = 1      \* a clone is equal to (and from now on replaces) the model
       [] c.op = "viterbi" ->
            /\ r.st = "ok"
            /\ Flags0(r)
@@ -56,7 +62,13 @@ Explains(evs, k, m) ==
            /\ LET sm == SumNum(m, c.a.obs)
                   mx == MaxNum(m, c.a.obs)
                   pf == IF c.op = "backward" THEN Prev(evs, k, "forward", c.a.obs) ELSE 0
+                  \* the last computed row of the returned table: alpha_T (forward), beta_1 (backward)
+                  want == IF c.op = "forward" THEN FwdRun(m, c.a.obs, 1, FwdRow0(m, c.a.obs[1]))
+                          ELSE BwdRun(m, c.a.obs, 1, BwdRow0(m))
               IN  /\ Near(r.p, sm)
+                  /\ r.shape = <<Len(c.a.obs), m.s>> /\ Len(r.row) = m.s
+                  /\ \A st \in 1..m.s : /\ r.row[st].nan = 0 /\ r.row[st].posinf = 0
+                                         /\ Near(r.row[st].p, want[st]) /\ ZeroRule(r.row[st], want[st])
                   /\ r.p >= mx
                   /\ ZeroRule(r, sm)
                   /\ pf # 0 => LET f == evs[pf].r.p IN r.p - f <= Tol(sm) /\ f - r.p <= Tol(sm)
